@@ -257,6 +257,13 @@ def r13_4(chk):
         if mu and "record_id" in mu.group(2):
             cols = {c.split("=")[0].strip() for c in mu.group(1).split(",")} | {c.split("=")[0].strip() for c in re.split(r"\s+AND\s+", mu.group(2))}
             upd = (node, cols)
+    if ins and not upd:
+        # upsert form: INSERT ... ON CONFLICT(<key>) DO UPDATE SET a=excluded.a, ...
+        for node, s_ in all_strings(fn):
+            mu = re.search(r"ON CONFLICT\s*\(([^)]*)\)\s*DO UPDATE SET\s+(.*)$", s_, re.S)
+            if mu:
+                cols = {c.split("=")[0].strip() for c in mu.group(2).split(",") if c.strip()} | {c.strip() for c in mu.group(1).split(",")}
+                upd = (node, cols)
     if not ins or not upd:
         raise AnalysisError("DataStoreSqlite._write: INSERT/UPDATE statements for result records not found")
     missing = ins[1] - upd[1]
@@ -290,7 +297,32 @@ def r13_5(chk):
     chk.floor("R13.5", 8, "2 guards + 3 base writes + 3 sqlite writes")
 
 
+def r13_6(chk):
+    chk.rule("R13.6", "a write that is not refused reaches the storage: in the _write of each store every normal path from entry to exit passes the storage effect (the file opened for writing / db.execute); a silent early return drops the record that was to be written (OVERWRITE mode would never overwrite)")
+    for rel, q, is_store in (
+        (DS, "DataStoreDirectory._write", lambda x: _is_mutation(x) and (call_name(x) or "").split(".")[-1] in ("open_", "open")),
+        (SQ, "DataStoreSqlite._write", lambda x: isinstance(x, ast.Call) and norm(x.func) == "self.db.execute"),
+    ):
+        m = chk.repo.module(rel)
+        fn = m.func(q)
+        g = build(fn)
+        stores = g.nodes_containing(is_store)
+        if not stores:
+            raise AnalysisError(f"{q}: storage effect not found")
+        seen = g.reachable([g.entry], blocked=stores, kinds=("n",))
+        k = key(m, q, "every accepted write reaches the storage")
+        if id(g.exit) in seen:
+            path = g._path(seen, g.exit)
+            rets = [n for n in path if n.kind == "return"]
+            where = m.loc(rets[-1].ast) if rets else m.loc(fn)
+            chk.violation("R13.6", key(m, q, f"silent return `{norm(rets[-1].ast) if rets else 'fall-through'}` before the storage effect"), where, f"a call that passed the mode check can return without writing ({g.show_path(path)}): the store does not hold what was written")
+        else:
+            chk.ok("R13.6", k, m.loc(fn), "no normal exit bypasses the storage effect")
+    chk.floor("R13.6", 2, "two stores")
+
+
 def run(chk):
+    r13_6(chk)
     r13_1(chk)
     r13_2(chk)
     r13_3(chk)
